@@ -132,14 +132,23 @@ pub fn yaml_events<R: Read>(reader: R) -> Vec<(u32, u64, u64)> {
 /// holds, or, when `a` is `u64::MAX`, failed); 5 parser about to be deleted; 6 read state
 /// about to be freed; 7 event initialized; 8 event about to be deleted.
 pub mod trace {
-	use std::cell::RefCell;
+	use std::cell::{Cell, RefCell};
 
 	thread_local! {
+		static ENABLED: Cell<bool> = const { Cell::new(false) };
 		static LOG: RefCell<Vec<(u8, u64, u64, u64)>> = const { RefCell::new(Vec::new()) };
 	}
 
 	pub(crate) fn log(code: u8, a: u64, b: u64, c: u64) {
-		LOG.with(|l| l.borrow_mut().push((code, a, b, c)));
+		if ENABLED.with(Cell::get) {
+			LOG.with(|l| l.borrow_mut().push((code, a, b, c)));
+		}
+	}
+
+	/// Starts recording on the current thread (recording is off by default, so
+	/// that the log does not grow during unrelated runs).
+	pub fn start() {
+		ENABLED.with(|e| e.set(true));
 	}
 
 	/// Returns and clears the log of the current thread.
